@@ -609,7 +609,7 @@ func check(args []string) int {
 		"known_entries_hit":      a.knownEntry,
 		"violations_reported":    reported,
 		"rule_hit_counts":        a.violCount,
-		"components": componentsOf(*prop),
+		"components":             componentsOf(*prop),
 	}
 	ev := Evidence{PropertyID: *prop, Tier: *tier, Seed: base, Level: spec.level, Coverage: cov, WallS: wall, Violations: len(reported),
 		Assumptions: append([]string{
